@@ -35,6 +35,11 @@ size_t g_used0;
                            (s)->slices[g_so].slice_offset == g_so_off && (s)->slices[g_so].slice_count == g_so_cnt && (s)->slices[g_so].block_size == g_so_bs && \
                            (s)->used == g_used0 && g_used0 < MI_SLICES_PER_SEGMENT)
 
+/* the same for a segment object the harness built (functions that take a slice POINTER: a pointer parameter that is only assumed equal to
+   &segment->slices[i] has no provenance in CBMC and reads through it return arbitrary values) */
+#define VC_SPAN_SEG2(s)   ((s)->slice_entries >= 1 && (s)->slice_entries <= MI_SLICES_PER_SEGMENT && \
+                           ((s)->kind == MI_SEGMENT_NORMAL || (s)->kind == MI_SEGMENT_HUGE) && (s)->used < MI_SLICES_PER_SEGMENT)
+
 /* recorder for the commit-on-demand step (its own contract is enforced in seg_purge.h) */
 size_t g_ec_n; uint8_t* g_ec_p; size_t g_ec_size; bool g_ec_ret;
 static bool c_ensure_committed_rec(mi_segment_t* segment, uint8_t* p, size_t size)
@@ -105,4 +110,57 @@ __CPROVER_ensures(allow_purge ==> (g_sp_n == 1 && __CPROVER_same_object(g_sp_p, 
 __CPROVER_ensures(!allow_purge ==> g_sp_n == 0)
 /* frame */
 __CPROVER_ensures((g_so < g_si || g_so >= g_si + VC_SC1 || (g_so > g_si && g_so < g_si + VC_SC1 - 1)) ==> VC_SLICE_SAME(segment));
+#endif
+
+#ifdef VC_CBMC
+/* ---- split and coalesce: both only re-label slices through mi_segment_span_free (recorder here; its own contract is above) ---- */
+size_t g_sf_n, g_sf_idx, g_sf_cnt; bool g_sf_purge;
+static void c_span_free_rec(mi_segment_t* segment, size_t slice_index, size_t slice_count, bool allow_purge, mi_segments_tld_t* tld)
+__CPROVER_requires(slice_index < segment->slice_entries && slice_count >= 1 && slice_index + slice_count <= segment->slice_entries)      /* call-site obligation: inside the table */
+__CPROVER_assigns(g_sf_n, g_sf_idx, g_sf_cnt, g_sf_purge)
+__CPROVER_ensures(g_sf_n == __CPROVER_old(g_sf_n) + 1 && g_sf_idx == slice_index && g_sf_cnt == slice_count && !g_sf_purge == !allow_purge);
+size_t g_rm_n; mi_slice_t* g_rm_a; mi_slice_t* g_rm_b;
+static void c_span_remove_rec(mi_slice_t* slice, mi_segments_tld_t* tld)
+__CPROVER_requires(slice->block_size == 0 && slice->slice_count >= 1 && slice->slice_offset == 0)                                      /* call-site obligation: a free span head */
+__CPROVER_assigns(g_rm_n, g_rm_a, g_rm_b)
+__CPROVER_ensures(g_rm_n == __CPROVER_old(g_rm_n) + 1 && g_rm_b == __CPROVER_old(g_rm_a) && g_rm_a == slice);
+
+mi_segment_t* g_sseg;   /* the segment object the harness built */
+size_t g_c0;        /* logical: slice count of the span before the call */
+/* keep the first slice_count slices, give the rest back as ONE free span directly behind them: the two parts partition the old span */
+static void mi_segment_slice_split(mi_segment_t* segment, mi_slice_t* slice, size_t slice_count, mi_segments_tld_t* tld)
+__CPROVER_requires(segment == g_sseg && VC_SPAN_SEG2(segment) && segment->kind == MI_SEGMENT_NORMAL && g_si < segment->slice_entries && slice == &segment->slices[g_si])
+__CPROVER_requires(slice->slice_count == g_c0 && g_c0 >= 1 && g_si + g_c0 <= segment->slice_entries && slice_count >= 1 && slice_count <= g_c0 && slice->block_size > 0 && g_sf_n == 0)
+__CPROVER_requires(((uintptr_t)segment % MI_SEGMENT_SIZE) == 0)
+__CPROVER_assigns(segment->slices[g_si].slice_count, g_sf_n, g_sf_idx, g_sf_cnt, g_sf_purge)
+__CPROVER_ensures(g_c0 == slice_count ==> (g_sf_n == 0 && segment->slices[g_si].slice_count == g_c0))
+__CPROVER_ensures(g_c0 > slice_count ==> (g_sf_n == 1 && g_sf_idx == g_si + slice_count && g_sf_cnt == g_c0 - slice_count && !g_sf_purge && segment->slices[g_si].slice_count == slice_count));
+
+bool g_nf, g_pf;        /* logical: is the span behind / in front free before the call? */
+size_t g_nc, g_ph;  /* logical: count of the span behind; head index of the span in front */
+#define VC_NEXT_FREE(s)  (g_si + g_c0 < (s)->slice_entries && (s)->slices[g_si + g_c0].block_size == 0)
+#define VC_PREV_FREE(s)  (g_si > 0 && (s)->slices[g_ph].block_size == 0)
+/* a freed span is merged with the FREE spans directly in front of and behind it -- never with a span in use -- and handed to
+   mi_segment_span_free as one span whose size is the sum; used neighbours are left alone */
+static mi_slice_t* mi_segment_span_free_coalesce(mi_slice_t* slice, mi_segments_tld_t* tld)
+__CPROVER_requires(VC_SPAN_SEG2(g_sseg) && g_si < g_sseg->slice_entries && slice == &g_sseg->slices[g_si] && ((uintptr_t)g_sseg % MI_SEGMENT_SIZE) == 0)
+__CPROVER_requires(slice->slice_count == g_c0 && g_c0 >= 1 && g_si + g_c0 <= g_sseg->slice_entries && slice->slice_offset == 0 && g_sf_n == 0 && g_rm_n == 0)
+__CPROVER_requires(g_si > 0 ==> g_ph < g_si)
+__CPROVER_requires(!g_nf == !VC_NEXT_FREE(g_sseg) && !g_pf == !VC_PREV_FREE(g_sseg))
+/* SWF at the neighbours: the slice behind the span is a span head; the slice in front points back to its head g_ph, whose span ends here */
+__CPROVER_requires(VC_NEXT_FREE(g_sseg) ==> (g_sseg->slices[g_si + g_c0].slice_count == g_nc && g_nc >= 1 && g_si + g_c0 + g_nc <= g_sseg->slice_entries && g_sseg->slices[g_si + g_c0].slice_offset == 0))
+__CPROVER_requires(g_si > 0 ==> (g_ph < g_si && g_sseg->slices[g_si - 1].slice_offset == VC_SOFF(g_si - 1 - g_ph)))
+__CPROVER_requires(VC_PREV_FREE(g_sseg) ==> (g_sseg->slices[g_ph].slice_count == g_si - g_ph && g_sseg->slices[g_ph].slice_offset == 0))
+__CPROVER_assigns(g_sseg->slices[g_si].slice_count, g_sseg->slices[g_si].slice_offset, g_sseg->slices[g_si].block_size, g_sf_n, g_sf_idx, g_sf_cnt, g_sf_purge, g_rm_n, g_rm_a, g_rm_b)
+/* huge segment: only marked free */
+__CPROVER_ensures(g_sseg->kind == MI_SEGMENT_HUGE ==> (g_sf_n == 0 && g_rm_n == 0 && g_sseg->slices[g_si].block_size == 0 && __CPROVER_return_value == slice))
+/* normal segment: exactly one free span results, covering the old span and its free neighbours, offered for purging */
+__CPROVER_ensures(g_sseg->kind == MI_SEGMENT_NORMAL ==> (g_sf_n == 1 && g_sf_purge &&
+     g_sf_idx == (g_pf ? g_ph : g_si) &&
+     g_sf_cnt == g_c0 + (g_nf ? g_nc : 0) + (g_pf ? g_si - g_ph : 0) &&
+     __CPROVER_return_value == &g_sseg->slices[g_sf_idx]))
+/* the free neighbours leave their span queues (unless the segment is abandoned: its spans are in no queue) */
+__CPROVER_ensures(g_sseg->kind == MI_SEGMENT_NORMAL ==> g_rm_n == (g_sseg->thread_id == 0 ? 0 : (g_nf ? 1 : 0) + (g_pf ? 1 : 0)))
+/* merged into the span in front: the old head becomes an interior slice pointing back to the new head */
+__CPROVER_ensures((g_sseg->kind == MI_SEGMENT_NORMAL && g_pf) ==> (g_sseg->slices[g_si].slice_count == 0 && g_sseg->slices[g_si].slice_offset == VC_SOFF(g_si - g_ph)));
 #endif
